@@ -36,12 +36,26 @@ var symIDs = map[string]sop.UUID{
 var symVers = map[string]int32{"min32": math.MinInt32, "neg1": -1, "zero": 0, "one": 1, "max32": math.MaxInt32, "b256": 256}
 var symStamps = map[string]int64{"min64": math.MinInt64, "neg1": -1, "zero": 0, "one": 1, "max64": math.MaxInt64, "b2p32": 1 << 32}
 
-func baseID(j int) ID { return ID{1, int64(j)} }
+// baseUUID(j): the id that lives in slot j of the block under test (hash modulus 1: block 0; lo % slots = j).
+// Its bytes are non-zero (as far as the congruence allows) so that a stray zero written into a neighbour shows.
+func baseUUID(j int) sop.UUID {
+	const pat = uint64(0xC3C3C3C3C3C3C3C3)
+	lo := pat - pat%uint64(lay.N) + uint64(j)
+	var u sop.UUID
+	for i := 0; i < 8; i++ {
+		u[i] = 0xA5
+		u[8+i] = byte(lo >> (8 * uint(7-i)))
+	}
+	if _, l := u.Split(); l%uint64(lay.N) != uint64(j)%uint64(lay.N) {
+		die("baseUUID(%d): Split() low part %d is not congruent", j, l)
+	}
+	return u
+}
 
 func concrete(s SymHandle, slot int) sop.Handle {
 	var h sop.Handle
 	if s.Lid == "slot" {
-		h.LogicalID = mkUUID(baseID(slot))
+		h.LogicalID = baseUUID(slot)
 	} else {
 		u, ok := symIDs[s.Lid]
 		if !ok {
@@ -66,7 +80,7 @@ func symID(u sop.UUID, slot int) string {
 			return k
 		}
 	}
-	if slot >= 0 && u == mkUUID(baseID(slot)) {
+	if slot >= 0 && u == baseUUID(slot) {
 		return "slot"
 	}
 	return "other:" + u.String()
@@ -173,7 +187,12 @@ func newLEvent(ev string) LEvent {
 
 var garbledNone = SymHandle{Lid: "none", A: "none", B: "none", Ver: "none", Ts: "none"}
 
-func decodeSlot(rec []byte, slot int) SymHandle {
+func decodeSlot(rec []byte, slot int) (out SymHandle) {
+	defer func() {
+		if recover() != nil { // SOP's decoder panics on a record shorter than it expects
+			out = garbled
+		}
+	}()
 	m := encoding.NewHandleMarshaler()
 	var h2 sop.Handle
 	if err := m.Unmarshal(rec, &h2); err != nil {
@@ -231,7 +250,8 @@ func layoutCases(caseFile, out, root string) {
 	dir := filepath.Join(root, "layout")
 	e := openEnv(dir, 1)
 	defer e.close()
-	baseSym := SymHandle{Lid: "slot", A: "pat", B: "nil", Act: false, Ver: "one", Ts: "zero", Del: false}
+	// every byte of the base record is non-zero
+	baseSym := SymHandle{Lid: "slot", A: "pat", B: "max", Act: true, Ver: "neg1", Ts: "neg1", Del: true}
 	added := 0
 	for j := 0; ; j++ {
 		h := concrete(baseSym, j)
@@ -278,9 +298,16 @@ func layoutCases(caseFile, out, root string) {
 				ev.Res = "error"
 			}
 			var h2 sop.Handle
-			if err := m.Unmarshal(bytes1, &h2); err != nil {
-				ev.Res = "error"
-			}
+			func() {
+				defer func() {
+					if recover() != nil {
+						ev.Res = "panic"
+					}
+				}()
+				if err := m.Unmarshal(bytes1, &h2); err != nil {
+					ev.Res = "error"
+				}
+			}()
 			ev.Back = symbolic(h2, -1)
 			if h2 != h { // exact equality of the concrete values, not only of their symbols
 				ev.Back = garbled
